@@ -11,6 +11,10 @@
 #include <ImathVec.h>
 #include <stdlib.h>
 #include <climits>
+#include <functional>
+#include <thread>
+#include <condition_variable>
+#include <mutex>
 
 using namespace orc;
 namespace IM = IMATH_NAMESPACE;
@@ -54,9 +58,10 @@ enum
     LB_RESEED,
     LB_RANGE_A_GT_B,
     LB_RANGE_EQUAL,
-    LB_RANGE_HUGE
+    LB_RANGE_HUGE,
+    LB_OTHER_THREAD
 };
-#define C18_LABELS "boundary_state", "output_all_zero_bits", "output_all_one_bits", "mixes_two_or_more_families", "global_state_ops", "reseeded_mid_history", "range_a_gt_b", "range_a_eq_b", "range_huge"
+#define C18_LABELS "boundary_state", "output_all_zero_bits", "output_all_one_bits", "mixes_two_or_more_families", "global_state_ops", "reseeded_mid_history", "range_a_gt_b", "range_a_eq_b", "range_huge", "global_ops_from_other_threads"
 
 static inline uint64_t gen_state (vp::Src& s, bool* boundary)
 {
@@ -140,6 +145,55 @@ struct Op
 
 static std::mutex g_global_rand_mutex;
 
+// One persistent helper thread (creating a thread per step costs ~1 ms on a loaded machine): run(f) executes f on it and
+// returns when f has finished, so the schedule stays strictly sequential and owned by the harness.  Only used while
+// g_global_rand_mutex is held.
+struct Helper
+{
+    std::thread                  th;
+    std::mutex                   m;
+    std::condition_variable      cv;
+    const std::function<void ()>* job  = nullptr;
+    bool                         done = false, quit = false;
+    Helper ()
+    {
+        th = std::thread ([this] {
+            std::unique_lock<std::mutex> lk (m);
+            for (;;)
+            {
+                cv.wait (lk, [&] { return job || quit; });
+                if (quit) return;
+                (*job) ();
+                job  = nullptr;
+                done = true;
+                cv.notify_all ();
+            }
+        });
+    }
+    void run (const std::function<void ()>& f)
+    {
+        std::unique_lock<std::mutex> lk (m);
+        job  = &f;
+        done = false;
+        cv.notify_all ();
+        cv.wait (lk, [&] { return done; });
+    }
+    ~Helper ()
+    {
+        {
+            std::lock_guard<std::mutex> lk (m);
+            quit = true;
+        }
+        cv.notify_all ();
+        th.join ();
+    }
+};
+static Helper& helper ()
+{
+    static Helper h;
+    return h;
+}
+
 struct Hist
 {
     std::vector<Op> ops;
@@ -147,6 +201,7 @@ struct Hist
     unsigned long   seed48, seed32;
     long            gseed;
     bool            with_global;
+    uint64_t        thread_mask = 0; // bit (step mod 64) set: a global-state operation of that step runs on a separate thread (joined at once)
 };
 
 // executes the history; pass 0 checks every step against the models and glibc and records outputs, pass 1 only records
@@ -171,6 +226,13 @@ static void exec_history (vp::Ctx& c, const Hist& h, bool check, std::vector<uin
         mg = ((uint64_t) ((uint32_t) h.gseed) << 16) | 0x330e;
     }
     int step = 0;
+    // the schedule is owned by the harness: strictly sequential, the other thread is joined before the next step
+    auto on = [&] (int st, const std::function<void ()>& fn) {
+        if ((h.thread_mask >> (st & 63)) & 1)
+            helper ().run (fn);
+        else
+            fn ();
+    };
     for (const Op& op : h.ops)
     {
         ++step;
@@ -315,13 +377,14 @@ static void exec_history (vp::Ctx& c, const Hist& h, bool check, std::vector<uin
                 break;
             }
             case OP_SRAND:
-                IM::srand48 ((long) op.seed);
+                on (step, [&] { IM::srand48 ((long) op.seed); });
                 if (check) ::srand48 ((long) op.seed);
                 mg = ((uint64_t) ((uint32_t) op.seed) << 16) | 0x330e;
                 break;
             case OP_LRAND:
             {
-                long iv = IM::lrand48 ();
+                long iv = 0;
+                on (step, [&] { iv = IM::lrand48 (); });
                 log.push_back ((uint64_t) iv);
                 if (!check) break;
                 long     gv = ::lrand48 ();
@@ -333,7 +396,8 @@ static void exec_history (vp::Ctx& c, const Hist& h, bool check, std::vector<uin
             }
             case OP_DRAND:
             {
-                double iv = IM::drand48 ();
+                double iv = 0;
+                on (step, [&] { iv = IM::drand48 (); });
                 log.push_back (d2u (iv));
                 if (!check) break;
                 double   gv = ::drand48 ();
@@ -433,6 +497,12 @@ static void history_case (vp::Ctx& c, bool with_global)
         if (h.ops.size () > 12) o << " ...";
         VP_NOTE (c, o.str ());
     }
+    // drawn last so that earlier choices decode as before: 1 case in 16 runs some global-state steps on other threads
+    if (with_global && s.chance (16))
+    {
+        h.thread_mask = s.bytes (8);
+        if (h.thread_mask && fam[3]) c.label (LB_OTHER_THREAD);
+    }
     if (boundary) c.label (LB_BOUNDARY_STATE);
     int nf = fam[0] + fam[1] + fam[2] + fam[3];
     if (nf >= 2) c.label (LB_MIXED_FAMILIES);
@@ -457,12 +527,12 @@ VP_RANDOM (history_arrays_objects, 1000000, 10000000, C18_HIST_RULE "; initial a
 VP_LABELS (history_arrays_objects, C18_LABELS)
 VP_REQUIRE_LABELS (history_arrays_objects, "boundary_state", "output_all_zero_bits", "output_all_one_bits", "mixes_two_or_more_families", "reseeded_mid_history", "range_a_gt_b", "range_a_eq_b", "range_huge")
 
-VP_RANDOM (history_global, 400000, 4000000, C18_HIST_RULE " PLUS the process-global srand48 / lrand48 / drand48 of Imath, compared step by step with the model (seed<<16 | 0x330e) and with glibc's ::srand48 / ::lrand48 / ::drand48; both global states are re-seeded at the top of the case and the case runs under a mutex; interleaved array/object operations must not disturb the global stream and vice versa.  non-trivial = mixes >= 2 generator families and uses >= 1 boundary state")
+VP_RANDOM (history_global, 400000, 4000000, C18_HIST_RULE " PLUS the process-global srand48 / lrand48 / drand48 of Imath, compared step by step with the model (seed<<16 | 0x330e) and with glibc's ::srand48 / ::lrand48 / ::drand48; both global states are re-seeded at the top of the case and the case runs under a mutex; interleaved array/object operations must not disturb the global stream and vice versa; in 1 case of 16 a generated subset of the global-state steps runs on a separate (helper) thread and completes before the next step (the generator is process-wide, as POSIX's).  non-trivial = mixes >= 2 generator families and uses >= 1 boundary state")
 {
     history_case (c, true);
 }
 VP_LABELS (history_global, C18_LABELS)
-VP_REQUIRE_LABELS (history_global, "boundary_state", "mixes_two_or_more_families", "global_state_ops", "reseeded_mid_history")
+VP_REQUIRE_LABELS (history_global, "boundary_state", "mixes_two_or_more_families", "global_state_ops", "reseeded_mid_history", "global_ops_from_other_threads")
 
 // ---------------------------------------------------------------------------
 // single steps from a large stratified set of states (thorough: 2^32 states)
